@@ -48,6 +48,7 @@ class Ctx:
         self.notes = []
         self.extra = {}
         self.floors = []         # (rule, what, got, floor)
+        self.undecideds = []     # (rule, where, function, what)
 
     # -- recording -------------------------------------------------------
     def rule(self, rid, text):
@@ -73,6 +74,15 @@ class Ctx:
     def floor(self, rule, what, got, floor):
         self.floors.append((rule, what, got, floor))
 
+    def undecided(self, rule, node_or_loc, function, what):
+        """The construct a rule decides on has a shape the rule does not understand: the rule can neither confirm nor refute the
+        property there.  Reported as ANALYSIS-ERROR (exit 2) unless a real violation is reported as well - never as a violation."""
+        m = getattr(node_or_loc, "_module", None)
+        where = "%s:%s" % (m.rel if m else "?", getattr(node_or_loc, "lineno", 0))
+        self.undecideds.append((rule, where, function, norm_text(what)))
+        self.obligations.append({"rule": rule, "where": "%s %s" % (where, function), "what": norm_text(what),
+                                 "verdict": "undecided", "nontrivial": True})
+
     def assume(self, text):
         if text not in self.assumptions:
             self.assumptions.append(text)
@@ -93,15 +103,21 @@ def finish(ctx, prog, out=print):
     """Apply floors, match known findings, write evidence, return exit code."""
     from .engine.program import AnalysisError
     short = [(rule, what, got, floor) for rule, what, got, floor in ctx.floors if got < floor]
-    if short and not ctx.findings:
+    known = [k for k in load_known() if k.get("property") == ctx.prop and k.get("status", "known") == "known"]
+    known_keys = {k["key"]: k for k in known}
+    unlisted = [f for f in ctx.findings if f.key() not in known_keys]
+    if ctx.undecideds and not unlisted:
+        rule, where, function, what = ctx.undecideds[0]
+        raise AnalysisError("rule %s cannot decide %s (%s): %s" % (rule, function, where, what))
+    if short and not unlisted:
         rule, what, got, floor = short[0]
         raise AnalysisError("rule %s matched %d %s, fewer than the %d confirmed by hand on the pinned tree "
                             "(anchor moved or rule went vacuous)" % (rule, got, what, floor))
+    for rule, where, function, what in ctx.undecideds:
+        out("NOTE property=%s rule %s cannot decide %s (%s): %s" % (ctx.prop, rule, function, where, what))
     for rule, what, got, floor in short:
         # a shortfall next to reported violations: the violations are the verdict, the shortfall is shown with them
         out("NOTE property=%s rule %s matched %d %s (floor %d): the code it anchors on has changed shape" % (ctx.prop, rule, got, what, floor))
-    known = [k for k in load_known() if k.get("property") == ctx.prop and k.get("status", "known") == "known"]
-    known_keys = {k["key"]: k for k in known}
     violations = []
     matched_known = []
     for f in ctx.findings:
